@@ -449,9 +449,10 @@ func init() {
 
 	register(&Property{
 		ID: "C16", Title: "HTTP resources are a faithful, finite rendering of the resource graph",
-		Explanation: "Decides: in both encoders the expansion path is pushed and popped on every successful path, the cycle test and the error-leaf return precede the push, the recursive descent is guarded by the cycle test and the push, so the expansion terminates on cyclic graphs and later siblings are not cut (PAIR/enc-path); the subscription is handed to the renderer before its resources are released, so the rendering is of the graph as cached at response time and not of one that queued events have already changed (PAIR/rpc-resources); HEAD and GET take the same path and HEAD is tested nowhere else; the two encoders agree on the value kinds (TWIN/encode-value); resource responses set Location from the unexpanded rid (PROV/cid-taint clause of C10); every successful path of both encoders, for collections and models of 0, 1 and 2 elements, emits exactly one well-formed JSON value skeleton, and every non-literal write is JSON by construction — json.Marshal, a json.RawMessage from the decoder, an encoded error (PAIR/emit). Not decided — the core: equality of the rendering with the recursive expansion for every graph; JSON well-formedness beyond the guarded structure; RIDToPath/PathToRID as inverse maps. Added after seeding round 7: cached model/collection values already handed to subscriptions are never written in place, so a pending GET renders a state the cache actually had (DOM/copy-on-write). Added after seeding round 8: no error rewrite distinguishes HEAD from GET (TABLE/method-rewrite). Added after seeding round 9: the path reader refuses dots, so the href writer leaves none (TABLE/href-dots). Added after seeding round 10: OnReady runs its callback at once only for a ready subscription, so a GET is rendered only when everything below the resource is loaded (DOM/onready-inline). Added after seeding round 12: the dot test of the path readers is applied behind the prefix cut (TABLE/dots-after-prefix). Added after seeding round 13: the method taken from the HTTP path is one valid subject token (DOM/method-token). Added after seeding round 13: the path handed to PathToRID / PathToRIDAction comes from the escaped request path, so parts are split before they are unescaped (DOM/raw-path). PAIR/respond-once: see C17.",
+		Explanation: "Decides: in both encoders the expansion path is pushed and popped on every successful path, the cycle test and the error-leaf return precede the push, the recursive descent is guarded by the cycle test and the push, so the expansion terminates on cyclic graphs and later siblings are not cut (PAIR/enc-path); the subscription is handed to the renderer before its resources are released, so the rendering is of the graph as cached at response time and not of one that queued events have already changed (PAIR/rpc-resources); HEAD and GET take the same path and HEAD is tested nowhere else; the two encoders agree on the value kinds (TWIN/encode-value); resource responses set Location from the unexpanded rid (PROV/cid-taint clause of C10); every successful path of both encoders, for collections and models of 0, 1 and 2 elements, emits exactly one well-formed JSON value skeleton, and every non-literal write is JSON by construction — json.Marshal, a json.RawMessage from the decoder, an encoded error (PAIR/emit). Not decided — the core: equality of the rendering with the recursive expansion for every graph; JSON well-formedness beyond the guarded structure; RIDToPath/PathToRID as inverse maps. Added after seeding round 7: cached model/collection values already handed to subscriptions are never written in place, so a pending GET renders a state the cache actually had (DOM/copy-on-write). Added after seeding round 8: no error rewrite distinguishes HEAD from GET (TABLE/method-rewrite). Added after seeding round 9: the path reader refuses dots, so the href writer leaves none (TABLE/href-dots). Added after seeding round 10: OnReady runs its callback at once only for a ready subscription, so a GET is rendered only when everything below the resource is loaded (DOM/onready-inline). Added after seeding round 12: the dot test of the path readers is applied behind the prefix cut (TABLE/dots-after-prefix). Added after seeding round 13: the method taken from the HTTP path is one valid subject token (DOM/method-token). Added after seeding round 13: the path handed to PathToRID / PathToRIDAction comes from the escaped request path, so parts are split before they are unescaped (DOM/raw-path). PAIR/respond-once: see C17. Added after the mutation sweep: the comparisons that sort a meta status into redirect / error / no-direct-response flip at the class borders, evaluated over 0..699 (TABLE/status-classes).",
 		Assumptions: baseAssumptions,
 		Rules: []Rule{
+			{Name: "TABLE/status-classes", Min: 4, Run: ruleStatusClasses, Doc: "every ordered comparison of a meta status with a constant flips exactly at a class border (300, 400, 500, 600)"},
 			{Name: "PAIR/respond-once", Min: 5, Run: ruleRespondOnce, Doc: "an HTTP exchange is answered at most once"},
 			{Name: "DOM/raw-path", Min: 3, Run: ruleRawPath, Doc: "the request path split into resource-id parts is the escaped one (URL.RawPath / EscapedPath)"},
 			{Name: "DOM/method-token", Min: 3, Run: ruleMethodToken, Doc: "the method name taken from an HTTP path is validated as one subject token before the call"},
@@ -471,9 +472,10 @@ func init() {
 
 	register(&Property{
 		ID: "C17", Title: "HTTP status mapping, service meta limits and CORS allow-list",
-		Explanation: "Decides completely the finite tables: errorStatus maps each code of the property's table (and five other codes) to the stated status, by constant propagation with the code fixed (TABLE/errorStatus); IsDirectResponseStatus and IsValidStatus are true exactly within 300..599, with the nil cases (TABLE/status-interval); MergeHeader never copies the five protected keys, each canonical, appends Set-Cookie and replaces other keys (TABLE/protected); every meta a decoder hands out was canonicalised (DOM/canonicalize); on a direct-response status no further service request is issued and no data is handed out (DOM/gates); the origin check precedes header auth and every service request (DOM/origin); the error-to-status table is closed: every code errorStatus tells apart, and any other, maps to the listed status or 400 (TABLE/errorStatus). Not decided: matchesOrigins for all strings, net/http and gorilla behaviour. Added after seeding round 7: an error is replaced by methodNotAllowed only on paths that excluded GET, HEAD and POST, so methodNotFound keeps its 404 there (TABLE/method-rewrite). Added after seeding round 8: merging two service metas takes the later status on every path (DOM/meta-merge). Added after seeding round 9: the header-auth answer's meta is kept whenever the request goes on, so its cookies accumulate with the later ones (DOM/auth-meta-kept). Added after seeding round 10: the upgrader's origin test is set only where the service's upgrader is built (DOM/origin). Added after seeding round 11: the origin \"null\" is recognised on the header value as received (DOM/null-origin-raw). Added after the mutation sweep: no path of a handler or response continuation answers twice (PAIR/respond-once). Added after the mutation sweep: a direct-response meta status of the access answer ends an HTTP request before its grants are looked at (DOM/direct-status-first).",
+		Explanation: "Decides completely the finite tables: errorStatus maps each code of the property's table (and five other codes) to the stated status, by constant propagation with the code fixed (TABLE/errorStatus); IsDirectResponseStatus and IsValidStatus are true exactly within 300..599, with the nil cases (TABLE/status-interval); MergeHeader never copies the five protected keys, each canonical, appends Set-Cookie and replaces other keys (TABLE/protected); every meta a decoder hands out was canonicalised (DOM/canonicalize); on a direct-response status no further service request is issued and no data is handed out (DOM/gates); the origin check precedes header auth and every service request (DOM/origin); the error-to-status table is closed: every code errorStatus tells apart, and any other, maps to the listed status or 400 (TABLE/errorStatus). Not decided: matchesOrigins for all strings, net/http and gorilla behaviour. Added after seeding round 7: an error is replaced by methodNotAllowed only on paths that excluded GET, HEAD and POST, so methodNotFound keeps its 404 there (TABLE/method-rewrite). Added after seeding round 8: merging two service metas takes the later status on every path (DOM/meta-merge). Added after seeding round 9: the header-auth answer's meta is kept whenever the request goes on, so its cookies accumulate with the later ones (DOM/auth-meta-kept). Added after seeding round 10: the upgrader's origin test is set only where the service's upgrader is built (DOM/origin). Added after seeding round 11: the origin \"null\" is recognised on the header value as received (DOM/null-origin-raw). Added after the mutation sweep: no path of a handler or response continuation answers twice (PAIR/respond-once). Added after the mutation sweep: a direct-response meta status of the access answer ends an HTTP request before its grants are looked at (DOM/direct-status-first). TABLE/status-classes: see C16.",
 		Assumptions: baseAssumptions,
 		Rules: []Rule{
+			{Name: "TABLE/status-classes", Min: 4, Run: ruleStatusClasses, Doc: "a meta status is sorted into its class at the class borders"},
 			{Name: "DOM/direct-status-first", Min: 2, Run: ruleDirectStatusFirst, Doc: "in the continuations of HTTP access requests CanGet/CanCall are evaluated only behind IsDirectResponseStatus() == false"},
 			{Name: "PAIR/respond-once", Min: 5, Run: ruleRespondOnce, Doc: "every path of every function holding the ResponseWriter produces at most one response (helper, upgrade, or own status/body)"},
 			{Name: "DOM/null-origin-raw", Min: 2, Run: ruleNullOriginRaw, Doc: "the null origin that bypasses the allow-list is recognised on the header value as received, not after case folding"},
